@@ -3,6 +3,7 @@ package expo
 import (
 	"fmt"
 	"math"
+	"runtime/debug"
 	"strconv"
 	"strings"
 	"testing"
@@ -1358,6 +1359,25 @@ func applyMuts(b []byte, muts []c35Mut) []byte {
 	return b
 }
 
+// drainRecover is drain with a panic of the parser turned into text (value + stack).
+func drainRecover(p textparse.Parser, o drainOpts) (got []obs, err error, pan string) {
+	defer func() {
+		if r := recover(); r != nil {
+			pan = fmt.Sprintf("panic: %v\n%s", r, debug.Stack())
+		}
+	}()
+	got, err = drain(p, o)
+	return got, err, ""
+}
+
+func firstPanicLines(s string) string {
+	l := strings.Split(s, "\n")
+	if len(l) > 14 {
+		l = l[:14]
+	}
+	return strings.Join(l, "\n")
+}
+
 func runC35Total(c c35TotalCase, r *ev.Rec) error {
 	if c.Format < 0 || c.Format > 2 || (c.Raw == "" && (len(c.Base.Fams) == 0 || validateFams(c.Base.Fams) != nil)) {
 		r.Discard()
@@ -1391,7 +1411,16 @@ func runC35Total(c c35TotalCase, r *ev.Rec) error {
 		return ev.Failf("%s: textparse.New returned no parser for a supported content type: %v", k, nerr)
 	}
 	// plain pass: Next + the accessors of the entry, no StartTimestamp
-	got, perr := drain(p, drainOpts{MaxNext: 8*len(payload) + 64})
+	got, perr, pan := drainRecover(p, drainOpts{MaxNext: 8*len(payload) + 64})
+	if pan != "" {
+		// listed finding nhcb-empty-label-name-panic: the NHCB wrapper calls
+		// labels.DropReserved on a label set that holds a quoted empty label name (`""="v"`),
+		// which the text parsers accept; DropReserved indexes the first byte of the name.
+		if k != fProto && c.Opts[3] && strings.Contains(string(payload), `""=`) && strings.Contains(pan, "DropReserved") && strings.Contains(pan, "processNHCB") {
+			return ev.FailSig("nhcb-empty-label-name-panic", "%s with NHCB conversion: panic in NHCBParser.processNHCB -> labels.DropReserved for a series with a quoted empty label name; payload %.400q\n%s", k, payload, firstPanicLines(pan))
+		}
+		return ev.Failf("%s: panic while parsing %.400q\n%s", k, payload, pan)
+	}
 	if perr == errTooManyEntries {
 		return ev.Failf("%s: more than %d entries from a %d byte payload %.300q", k, 8*len(payload)+64, len(payload), payload)
 	}
@@ -1400,7 +1429,10 @@ func runC35Total(c c35TotalCase, r *ev.Rec) error {
 		in2 := append(make([]byte, 0, len(payload)+8), payload...)
 		p2, _ := textparse.New(in2, k.contentType(), labels.NewSymbolTable(), opts)
 		if p2 != nil {
-			_, perr2 := drain(p2, drainOpts{CallST: true, MaxNext: 8*len(payload) + 64})
+			_, perr2, pan2 := drainRecover(p2, drainOpts{CallST: true, MaxNext: 8*len(payload) + 64})
+			if pan2 != "" {
+				return ev.Failf("%s (with StartTimestamp): panic while parsing %.400q\n%s", k, payload, pan2)
+			}
 			if perr2 == errTooManyEntries {
 				return ev.Failf("%s (with StartTimestamp): more than %d entries from a %d byte payload %.300q", k, 8*len(payload)+64, len(payload), payload)
 			}
